@@ -745,14 +745,63 @@ impl<'tcx> Exporter<'tcx> {
                             f.push(("str", J::s(String::from_utf8_lossy(bytes).to_string())));
                         }
                     } else {
-                        f.push(("opaque", J::s(np(|| format!("{}", c)))));
+                        match cv {
+                            ConstValue::Indirect { alloc_id, offset } => {
+                                f.push(("mem", J::s(format!("{}+{}", self.render_alloc(alloc_id, 3), offset.bytes()))));
+                            }
+                            ConstValue::Slice { alloc_id, meta } => {
+                                f.push(("mem", J::s(format!("{}[..{}]", self.render_alloc(alloc_id, 3), meta))));
+                            }
+                            _ => {}
+                        }
                     }
                 }
-                ConstValue::Scalar(s) => f.push(("opaque", J::s(format!("{:?}", s)))),
+                ConstValue::Scalar(sc) => match sc {
+                    mir::interpret::Scalar::Ptr(ptr, _) => {
+                        let (prov, off) = ptr.prov_and_relative_offset();
+                        f.push(("ptr", J::s(format!("{}+{}", self.render_alloc(prov.alloc_id(), 3), off.bytes()))));
+                    }
+                    other => f.push(("opaque", J::s(format!("{:?}", other)))),
+                },
             },
             Err(_) => f.push(("uneval", J::s(np(|| format!("{}", c))))),
         }
         J::obj(f)
+    }
+
+    /// Content-addressed rendering of a global allocation (no alloc ids: they differ between builds).
+    fn render_alloc(&self, id: mir::interpret::AllocId, depth: usize) -> String {
+        use rustc_middle::mir::interpret::GlobalAlloc;
+        let tcx = self.tcx;
+        match tcx.try_get_global_alloc(id) {
+            Some(GlobalAlloc::Memory(m)) => {
+                let a = m.inner();
+                let bytes = a.inspect_with_uninit_and_ptr_outside_interpreter(0..a.len());
+                let mut s = String::from("mem{");
+                for b in bytes {
+                    s.push_str(&format!("{:02x}", b));
+                }
+                let ptrs = a.provenance().ptrs();
+                if !ptrs.is_empty() {
+                    s.push_str(";relocs=[");
+                    for (off, prov) in ptrs.iter() {
+                        if depth > 0 {
+                            s.push_str(&format!("@{}:{},", off.bytes(), self.render_alloc(prov.alloc_id(), depth - 1)));
+                        } else {
+                            s.push_str(&format!("@{}:...,", off.bytes()));
+                        }
+                    }
+                    s.push(']');
+                }
+                s.push('}');
+                s
+            }
+            Some(GlobalAlloc::Function { instance }) => format!("fn{{{}}}", np(|| format!("{}", instance))),
+            Some(GlobalAlloc::Static(d)) => format!("static{{{}}}", self.path(d)),
+            Some(GlobalAlloc::VTable(t, _)) => format!("vtable{{{}}}", np(|| format!("{}", t))),
+            Some(GlobalAlloc::TypeId { ty }) => format!("typeid{{{}}}", np(|| format!("{}", ty))),
+            None => "dangling".to_string(),
+        }
     }
 
     /// Resolve a `FnDef(def, args)` in the caller's typing environment.
